@@ -24,7 +24,7 @@ ASSUMPTIONS = ["K-layer tolerance |a-b| <= 1e-10 + 1e-8 max(|a|,|b|) between mod
 def scenario(ctx, i):
     r = ctx.rng
     C, D, N = gen.dims(ctx, nmax_q=12, nmax_t=40)
-    kind = ["bulk", "tail", "mixed", "floor", "bulk", "highdim"][int(r.integers(0, 6))]
+    kind = ["bulk", "tail", "mixed", "floor", "bulk", "highdim", "separated"][int(r.integers(0, 7))]
     if kind == "highdim":
         # many features with a common scale far from 1: the log-normaliser sum_d log(2 pi var_d) is of order +-1e3,
         # its exponential is far outside the double range (the density is fine: only its log is ever needed)
@@ -32,6 +32,9 @@ def scenario(ctx, i):
         w, m, v, sc = gen.gmm_params(r, C, D, scales=np.full(D, 10.0 ** r.uniform(-3, 3)))
     else:
         w, m, v, sc = gen.gmm_params(r, C, D)
+    if kind == "separated" and C >= 2:
+        # component means 1e4 .. 1e8 standard deviations apart (each sample is in the bulk of one component)
+        m = m + np.sqrt(v) * (10.0 ** r.uniform(4, 8)) * r.choice([-1.0, 1.0], size=(C, 1)) * np.arange(C)[:, None]
     thr = None
     if kind == "floor":
         thr = float(np.exp(r.uniform(np.log(0.05), np.log(2)))) * (sc**2)
